@@ -36,7 +36,8 @@ REQUIRED_BUCKETS = {"quick": ["tpl:boundary", "tpl:affine", "tpl:power", "tpl:pa
                               "new-parameters:untyped-and-no-volume-parameter-left", "same-name-second-definition", "new-parameter-keeps-base-name",
                               "same-source-other-defaults", "magnetic", "pd:mesh>100", "pd:amplitude-entry",
                               "translation-helper-in-extra-source-file", "translation-helper-in-extra-source-file:hollow-base",
-                              "base-is-plugin-file:base-first", "base-is-plugin-file:reparameterised-first", "base-plugin-revision:2"]}
+                              "base-is-plugin-file:base-first", "base-is-plugin-file:reparameterised-first", "base-plugin-revision:2",
+                              "pd:three-loops-mesh>100", "magnetic:on-translated-sld"]}
 REQUIRED_BUCKETS["thorough"] = REQUIRED_BUCKETS["quick"]
 
 BASES = ["sphere", "cylinder", "ellipsoid", "core_shell_sphere", "hollow_cylinder", "barbell", "capped_cylinder",
@@ -75,6 +76,9 @@ def gen_cases(tier, seed):
     for k in range(3 if tier == "quick" else 24):
         cases.append({"id": "plugin-base/%03d" % k, "kind": "plugin", "k": 7000 + k, "seed": seed, "base": "plugin", "tpl": "plugin",
                       "group": "pb%d" % k, "lane": "plain", "cost": 2})
+    for k in range(4 if tier == "quick" else 40):
+        cases.append({"id": "sldmag/%03d" % k, "kind": "sldmag", "k": 8000 + k, "seed": seed, "base": "sldmag", "tpl": "sldmag",
+                      "group": "sm%d" % k, "lane": "plain", "cost": 2})
     for k in range(4 if tier == "quick" else 30):
         cases.append({"id": "asan/%04d" % k, "k": 5000 + k, "seed": seed, "base": ["cylinder", "barbell", "ellipsoid", "hollow_cylinder"][k % 4],
                       "tpl": TEMPLATES[k % len(TEMPLATES)], "group": "a%d" % (k % 4), "lane": "asan", "cost": 4})
@@ -237,6 +241,53 @@ def translate(st, newvals, basevals):
     return {k2: v2 for k2, v2 in out.items()}, env
 
 
+def run_sldmag(case, rec):
+    """A base SLD defined through a new SLD-typed parameter (sld = sld_solvent + contrast_sld; sld_core = 0.5*(a + b)) that
+    carries magnetisation, evaluated in 2-D: every spin channel sees the translated effective SLD, i.e. the base model with
+    the correspondingly translated magnetisation."""
+    from sasmodels import core as sascore, direct_model
+    k = case["k"]
+    base = ["sphere", "cylinder", "ellipsoid", "core_shell_sphere"][k % 4]
+    rng = core.rng_for(case["seed"], PROP, "sldmag", k)
+    bi = sas.info(base)
+    tgt = "sld" if base != "core_shell_sphere" else "sld_core"
+    fac = float(rng.choice([1.0, 0.5, 2.0]))
+    new = [["contrast_sld", "1e-6/Ang^2", 2.5, [-np.inf, np.inf], "sld", "sld above the solvent"]]
+    text = "%s = sld_solvent + %r*contrast_sld" % (tgt, fac)
+    try:
+        info = sascore.reparameterize(bi, new, text, name="rtm16_sldmag_%d" % k)
+        model = sascore.build_model(info, platform="dll")
+    except Exception as exc:
+        rec.check("reparameterize_accepts_valid_definition", False, {"base": base, "translation": text, "exception": repr(exc)[:800]})
+        return
+    bmodel = sas.build(base)
+    pars0 = sas.base_pars(bi, case["seed"]*17 + k)
+    cs = float(rng.uniform(0.5, 4.0))
+    rp = {kk: vv for kk, vv in pars0.items() if kk != tgt}
+    rp["contrast_sld"] = cs
+    bp = dict(pars0)
+    bp[tgt] = pars0["sld_solvent"] + fac*cs
+    for a_ in [p_.name for p_ in bi.parameters.orientation_parameters]:
+        rp[a_] = bp[a_] = float(rng.uniform(-80, 80))
+    m0, mt, mp = float(rng.uniform(0.5, 4.0)), float(rng.uniform(-80, 80)), float(rng.uniform(-170, 170))
+    ups = {"up_frac_i": float(rng.uniform(0, 1)), "up_frac_f": float(rng.uniform(0, 1)), "up_theta": float(rng.uniform(0, 180)),
+           "up_phi": float(rng.uniform(0, 180))}
+    rp.update(ups, contrast_sld_M0=m0, contrast_sld_mtheta=mt, contrast_sld_mphi=mp)
+    # one magnetised SLD (the solvent is not magnetised): the base SLD's magnetisation is the new one's times the factor
+    bp.update(ups, **{tgt + "_M0": fac*m0, tgt + "_mtheta": mt, tgt + "_mphi": mp})
+    qx, qy = sas.q_points_2d(bi, bp, 5, rng)
+    I = np.asarray(direct_model.call_kernel(model.make_kernel([qx, qy]), dict(rp)), float)
+    Ib = np.asarray(direct_model.call_kernel(bmodel.make_kernel([qx, qy]), dict(bp)), float)
+    sc = float(np.max(np.abs(Ib - bp.get("background", 0.0))))
+    ok = core.close(I, Ib, 1e-9, 1e-12*sc)
+    rec.check("equals_base_at_translated", ok,
+              None if ok else {"base": base, "translation": text, "new_values": {"contrast_sld": cs, "contrast_sld_M0": m0},
+                               "polarisation": ups, "observed": I, "base_with_translated_magnetisation": Ib,
+                               "max_rel_err": core.maxrel(I, Ib, 1e-12*sc)})
+    rec.bucket("magnetic:on-translated-sld")
+    rec.set_shape(("sldmag", base, k), True)
+
+
 BASE_PLUGIN = """r\"\"\"base model of a reparameterisation (verification harness)\"\"\"
 from numpy import inf
 name = "%(name)s"
@@ -333,6 +384,8 @@ def run_plugin(case, rec):
 def run_case(case, rec):
     if case.get("kind") == "plugin":
         return run_plugin(case, rec)
+    if case.get("kind") == "sldmag":
+        return run_sldmag(case, rec)
     from sasmodels import core as sascore, direct_model
     base, k = case["base"], case["k"]
     bi = sas.info(base)
@@ -542,6 +595,17 @@ def run_case(case, rec):
         if big:
             # more than 100 mesh points: the compiled kernel is re-entered part-way through the mesh
             rec.bucket("pd:mesh>100")
+            # and a third distribution, on an untouched size parameter of the base model (three nested loops)
+            third = [p for p in info.parameters.call_parameters if p.polydisperse and p.type == "volume" and p.name not in newvals
+                     and p.name in pdp and p.length == 1 and np.isfinite(pdp[p.name]) and pdp[p.name] > 0
+                     and not p.name.startswith("n_")]
+            if third and len(chosen) > 1:
+                p3 = third[int(rng.integers(len(third)))]
+                room3 = min(abs(pdp[p3.name] - p3.limits[0]), abs(p3.limits[1] - pdp[p3.name]))/abs(pdp[p3.name])
+                w3 = min(0.1, 0.9*room3/2.0)
+                if w3 > 0:
+                    sas.add_pd(pdp, p3, "gaussian", int(rng.integers(3, 6)), w3, 2.0)
+                    rec.bucket("pd:three-loops-mesh>100")
         Ipd = np.asarray(direct_model.call_kernel(kr, dict(pdp)), float)
         modes_b = len(bi.radius_effective_modes or [])
         mode_pd = int(rng.integers(1, modes_b + 1)) if modes_b else 0
